@@ -193,7 +193,7 @@ pub fn suites() -> Vec<Suite> {
         head_len: FACTORY_HEAD,
         op_len: FACTORY_OP,
         max_ops: 30,
-        quick_cases: 8_000,
+        quick_cases: 20_000,
         thorough_cases: 150_000,
         run,
         direct: Some(direct),
